@@ -16,6 +16,7 @@ type vRecAppender struct {
 	started   int
 	stopped   int
 	order     *[]int // shared delivery log (appender index per delivery)
+	seq       []int  // item identities in arrival order (event: Line, raw write: first byte)
 	idx       int
 }
 
@@ -28,6 +29,7 @@ func (c *vRecAppender) Append(e *Event) {
 	c.appends++
 	c.levels = append(c.levels, e.Level.code)
 	c.events = append(c.events, *e)
+	c.seq = append(c.seq, e.Line)
 	if c.order != nil {
 		*c.order = append(*c.order, c.idx)
 	}
@@ -39,6 +41,9 @@ func (c *vRecAppender) Write(b []byte) {
 	c.writes++
 	c.raw = append(c.raw, append([]byte(nil), b...))
 	c.rawAlias = append(c.rawAlias, b)
+	if len(b) > 0 {
+		c.seq = append(c.seq, int(b[0]))
+	}
 }
 
 // vCtxT is a distinguishable context value (identity is what the hooks must receive).
